@@ -20,7 +20,7 @@ from ..snapshot import snapshot, isomorphic, first_diff
 from ..mutmodel import ref_assign, RefError, FaultDict, FaultList, FaultObj, Boom, access
 
 glom = env.bind()
-from glom import T, S, Path, Spec, Assign, assign, GlomError, Val, glom as G  # noqa: E402
+from glom import T, S, Path, Spec, Assign, assign, GlomError, Val, Coalesce, glom as G  # noqa: E402
 
 META = {
     'level': 'fault_enumeration',
@@ -207,7 +207,10 @@ def plan_cases(col, rng, recipe, shared, segs, nodes):
     # (2) insert a new element below every node of the path; (3) prefix stops existing at every k
     for k in range(len(segs) + 1):
         node = nodes[k]
-        newseg = 'zz_new' if not isinstance(node, (list, tuple)) else rng.choice([len(node), 99, 'x9'])
+        # (sequences: positions just past either end, far out, and the negative range one length further down - plain Python
+        # refuses them all; -len is the first element)
+        newseg = 'zz_new' if not isinstance(node, (list, tuple)) else \
+            rng.choice([len(node), 99, 'x9', -len(node) - 1, -2 * len(node) or -2, -2 * len(node) - 1, -len(node) or -1, -len(node) - 2])
         if isinstance(node, gen.SlotObj):
             newseg = rng.choice(['p', 'q', 'r', 'zz_new'])
         if rng.random() < 0.7:
@@ -495,6 +498,56 @@ def wildcard_over_mixed_kinds_and_equal_holders(col):
                           'target now %s, assignment at every match gives %s' % (short(path), got if not got.ok else 'returned', short(t, 300), short(twin, 300)), None)
 
 
+def _plus_one(v):
+    return v + 1
+
+
+def wildcard_value_is_evaluated_once(col):
+    """the value of an assignment through a wildcard is evaluated once, against the target as it was before the first write, and that
+    one object is stored at every match (v = <value>; for m in matches: m[k] = v)"""
+    calls = []
+
+    def counting(t):
+        calls.append(1)
+        return ('computed', len(calls))
+    mk = lambda: {'name': 'nm', 'rows': [{'n': 1}, {'n': 2}, {'n': 3}], 'tree': {'l': {'n': 10, 'sub': {'n': 20}}, 'r': {'n': 30}},
+                 'forest': {'l': {'sub': {}}, 'r': {}}}
+    rows_n = lambda t: [r['n'] for r in t['rows']]
+    cases = [
+        ('value reads what the assignment writes (string path)', 'rows.*.n', Spec(('rows.*.n', sum)), rows_n, [6, 6, 6], False),
+        ('value reads what the assignment writes (T path)', T['rows'].__star__()['n'], Spec((T['rows'], [T['n']], sum)), rows_n, [6, 6, 6], False),
+        ('value reads one of the written places', 'rows.*.n', T['rows'][0]['n'] + 100, rows_n, [101, 101, 101], False),
+        ('value reads the last written place', Path('rows', T.__star__(), 'n'), T['rows'][-1]['n'] * 2, rows_n, [6, 6, 6], False),
+        ('value spec with a call log', 'rows.*.n', Spec(counting), rows_n, [('computed', 1)] * 3, True),
+        ('list literal with a T leaf', 'rows.*.tags', [T['name']], lambda t: [r['tags'] for r in t['rows']], [['nm']] * 3, True),
+        ('dict literal with a T leaf', 'rows.*.meta', {'of': T['name']}, lambda t: [r['meta'] for r in t['rows']], [{'of': 'nm'}] * 3, True),
+        ('** destination, value reads a written place', 'forest.**.n', Spec((Coalesce('forest.n', default=0), _plus_one)),
+         lambda t: [t['forest']['n'], t['forest']['l']['n'], t['forest']['r']['n'], t['forest']['l']['sub']['n']], [1, 1, 1, 1], False),
+        ('two stars, value spec with a call log', Path('tree', T.__star__(), 'n'), Spec(counting), lambda t: [t['tree']['l']['n'], t['tree']['r']['n']],
+         None, True),
+    ]
+    for desc, path, value, read, want, same_object in cases:
+        for via in ('assign()', 'Assign spec'):
+            del calls[:]
+            t = mk()
+            got = call(assign, t, path, value) if via == 'assign()' else call(G, t, Assign(path, value))
+            col.case(('wildcard-value-once', desc, via), True)
+            col.count('assignments_attempted')
+            if not got.ok:
+                col.violation('C11/wildcard-assignment-raises', '%s via %s: %r' % (desc, via, got.exc), None)
+                continue
+            stored = read(t)
+            if want is not None and stored != want:
+                col.violation('C11/wildcard-value-evaluated-per-match', '%s via %s: the matches now hold %r; evaluating the value once against the '
+                              'target as it was and storing it at every match gives %r' % (desc, via, stored, want), None)
+            elif same_object and any(v is not stored[0] for v in stored):
+                col.violation('C11/wildcard-value-evaluated-per-match:distinct-objects', '%s via %s: the matches hold %d different objects %r; '
+                              'one value is evaluated and stored at every match' % (desc, via, len({id(v) for v in stored}), stored), None)
+            elif 'call log' in desc and len(calls) != 1:
+                col.violation('C11/wildcard-value-evaluated-per-match:call-count', '%s via %s: the value spec ran %d times for %d matches'
+                              % (desc, via, len(calls), len(stored)), None)
+
+
 def missing_before_wildcard(col):
     """missing= creates the absent segments in front of a wildcard; the wildcard then has no matches in the new container"""
     cases = [
@@ -704,6 +757,7 @@ def run(ctx):
         deep_wildcards(col, rng)
         reused_assign_object(col, rng)
         missing_before_wildcard(col)
+        wildcard_value_is_evaluated_once(col)
         attribute_vs_item_on_container_subclasses(col)
         attribute_vs_item_in_fresh_processes(col, 24 if not ctx.thorough else 64)
         wildcard_over_mixed_kinds_and_equal_holders(col)
